@@ -860,7 +860,30 @@ def grid_grep_large(env, tier):
                 yield mkcase("large", "xzgrep", o + [pat] + [f[0] for f in files], files)
 
 
-GRIDS = [grid_grep_large, grid_grep_optpairs, grid_diff_pairs, grid_grep_formats, grid_grep_badops, grid_diff_options, grid_grep_longopts,
+def grid_grep_sentinel(env, tier):
+    """Names, patterns and option arguments that contain the letter the script's quoting routine appends as an end marker (X) at the
+    end of an inner line, together with a quote: the marker must only be recognised at the very end."""
+    specials = ["aX\n'b", "X\n'", "boxX\ntouch CANARY;: 'b", "X", "aX", "'X\nX'", "X\nX\n'"]
+    for sp in specials:
+        fn = sp + ".xz"
+        three = [("p0.xz", "xz", "N1", "ok"), (fn, "xz", "N2", "ok"), ("q9.xz", "xz", "N3", "ok")]
+        nm3 = [f[0] for f in three]
+        yield mkcase("sentinel-names3", "xzgrep", ["-e", "a"] + [dash(x) for x in nm3], three, ("label", "sed"))
+        yield mkcase("sentinel-names3-dd", "xzgrep", ["--", "a"] + nm3, three)
+        yield mkcase("sentinel-names1-H", "xzgrep", ["-H", "--", "a", fn], [three[1]], ("label", "sed"))
+        yield mkcase("sentinel-l", "xzgrep", ["-l", "-e", "a"] + [dash(x) for x in nm3], three)
+        # as a pattern (fixed strings: the newline separates alternative patterns for grep as well) and as an option argument
+        f1 = [("f1.xz", "xz", "P", "ok")]
+        yield mkcase("sentinel-pattern", "xzgrep", ["-F", "-e", sp, "f1.xz"], f1)
+        yield mkcase("sentinel-pattern-pos", "xzgrep", ["-F", "--", sp, "f1.xz"], f1)
+        yield mkcase("sentinel-label-arg", "xzgrep", ["--label=" + sp, "-H", "a"], [], stdin=("xz", "F1"))
+    for sp in specials[:4]:
+        fa = (sp + ".xz", "xz", "DA", "ok"); fb = ("y.xz", "xz", "DB", "ok")
+        yield mkcase("sentinel-diff", "xzdiff", [dash(fa[0]), fb[0]], [fa, fb])
+        yield mkcase("sentinel-cmp", "xzcmp", [fb[0], dash(fa[0])], [fa, fb])
+
+
+GRIDS = [grid_grep_sentinel, grid_grep_large, grid_grep_optpairs, grid_diff_pairs, grid_grep_formats, grid_grep_badops, grid_diff_options, grid_grep_longopts,
          grid_grep_options, grid_grep_bundles, grid_grep_patterns, grid_grep_patfiles, grid_diff_single,
          grid_grep_names, grid_diff_names]
 
